@@ -2603,7 +2603,7 @@ def check_C19(work, tier, seed):
     alines = ah + [ln for ex in aex if not any('"e":"ard_set_counter_size"' in x or ('"e":"ard_clear"' in x and '"fam":"ctr"' in x)
                                                for x in ex)
                    for ln in ex if '"e":"ard_clear"' not in ln]
-    ign = ("be", "psize", "cap", "na", "nf", "nz", "badfree", "lv", "stray", "ctxnull", "vtnull", "fail")
+    ign = ("be", "psize", "cap", "na", "nf", "nz", "nzo", "badfree", "lv", "stray", "ctxnull", "vtnull", "fail")
     h, diff = compare_axis(work, clines, alines, "arduino-vs-c", "C19", seed, out, ignore_keys=ign)
     if diff:
         p = save_replay("C19", seed, 800, h + diff[0], "Arduino trace differs from the C library's on the same scenario")
